@@ -56,9 +56,27 @@ func (obj Values) Eval(s *Scope, depth int) Object {
 	return obj[0]
 }
 
-// First value in the multiple values.
-func (obj Values) First() Object {
-	return obj[0]
+// First value in the multiple values or nil if there are no values.
+func (obj Values) First() (first Object) {
+	if 0 < len(obj) {
+		first = obj[0]
+	}
+	return
+}
+
+// PrimaryValue returns the first of multiple values, nil if there are none
+// as with (values), and any other object as is. It is for forms that
+// evaluate a sub-form for its value such as a test, an initial value, or a
+// value to assign.
+func PrimaryValue(obj Object) Object {
+	if vs, ok := obj.(Values); ok {
+		obj = vs.First()
+		// As with EvalArg, an empty list is nil so the value can be tested.
+		if list, ok := obj.(List); ok && len(list) == 0 {
+			obj = nil
+		}
+	}
+	return obj
 }
 
 // LoadForm returns a form that can be evaluated to create the object.
